@@ -104,4 +104,50 @@ theorem predicates_panic {s : Sym} (h : curvature s = .panic) :
 theorem v_rep_irrelevant (d : DSymData) (i j e : Nat) :
     (Sym.v ⟨d, .simpleSym⟩ i j e) = (Sym.v ⟨d, .partialSym⟩ i j e) := rfl
 
+theorem oppositeLoop_rep (d : DSymData) (i j : Nat) : ∀ (fuel k e : Nat),
+    oppositeLoop ⟨d, .simpleSym⟩ i j fuel k e = oppositeLoop ⟨d, .partialSym⟩ i j fuel k e := by
+  intro fuel
+  induction fuel with
+  | zero => intro k e; rfl
+  | succ n ih =>
+    intro k e
+    simp only [oppositeLoop, Sym.op]
+    split
+    · rfl
+    · split
+      · rfl
+      · exact ih _ _
+
+theorem opposite_rep (d : DSymData) (i j e : Nat) :
+    opposite ⟨d, .simpleSym⟩ i j e = opposite ⟨d, .partialSym⟩ i j e := by
+  unfold opposite
+  exact oppositeLoop_rep d i j _ _ _
+
+theorem traceLoop_rep (d : DSymData) : ∀ (fuel j k e : Nat) (corners : List Nat) (seen : List (Nat × Nat)),
+    traceLoop ⟨d, .simpleSym⟩ fuel j k e corners seen = traceLoop ⟨d, .partialSym⟩ fuel j k e corners seen := by
+  intro fuel
+  induction fuel with
+  | zero => intros; rfl
+  | succ n ih =>
+    intro j k e corners seen
+    simp only [traceLoop, v_rep_irrelevant, opposite_rep, ih]
+
+theorem traceBoundary_rep (d : DSymData) :
+    traceBoundary ⟨d, .simpleSym⟩ = traceBoundary ⟨d, .partialSym⟩ := by
+  have hstep : traceStep ⟨d, .simpleSym⟩ = traceStep ⟨d, .partialSym⟩ := by
+    funext ori st i e
+    simp only [traceStep, traceLoop_rep]
+    rfl
+  unfold traceBoundary
+  rw [hstep]
+  rfl
+
+/-- `orbifold_symbol` does not depend on the representation when both report completeness -/
+theorem orbifoldSymbol_rep (d : DSymData)
+    (hc : Sym.isComplete ⟨d, .simpleSym⟩ = Sym.isComplete ⟨d, .partialSym⟩) :
+    orbifoldSymbol ⟨d, .simpleSym⟩ = orbifoldSymbol ⟨d, .partialSym⟩ := by
+  unfold orbifoldSymbol
+  rw [hc, traceBoundary_rep]
+  rfl
+
 end DSymVerif.D2
